@@ -361,7 +361,7 @@ def r3_floor_ceil_pairing(repo=None):
         if n.kind == "BinaryOperator" and n.opcode == "+":
             return "+".join(sorted(canon(ch, depth) for ch in n.children))
         pth = n.path()
-        if pth in locals_ and depth < 4:
+        if pth is not None and "->" not in pth and pth.split(".")[0].split("[")[0] in locals_ and depth < 4:     # a local, or a member of a local struct
             defs = _single_def(fn, pth)
             if len(defs) == 1:
                 e = defs[0][1].strip(casts=True)
@@ -377,7 +377,7 @@ def r3_floor_ceil_pairing(repo=None):
         if n.kind == "BinaryOperator" and n.opcode in ("/", "%") and n.children[1].intval() == 1000:
             return n.opcode, canon(n.children[0])
         pth = n.path()
-        if pth in locals_ and depth < 4:
+        if pth is not None and "->" not in pth and pth.split(".")[0].split("[")[0] in locals_ and depth < 4:     # a local, or a member of a local struct
             defs = _single_def(fn, pth)
             if len(defs) == 1:
                 return dmx(defs[0][1], depth + 1)
@@ -387,7 +387,9 @@ def r3_floor_ceil_pairing(repo=None):
         raise AnalysisError("basename snprintf does not take two name parts: %s" % sn[0].nsrc)
     dm = (dmx(nargs[0]), dmx(nargs[1]))
     sec_v, ms_v = (re.sub(r"\s", "", a_.nsrc) for a_ in nargs)
-    if not dm[0] or not dm[1] or dm[0][0] != "/" or dm[1][0] != "%" or dm[0][1] != dm[1][1]:
+    if not dm[0] or not dm[1]:
+        raise AnalysisError("%s: the name parts `%s`, `%s` printed into the file name were not traced to X / 1000 and X %% 1000" % (F, sec_v, ms_v))
+    if dm[0][0] != "/" or dm[1][0] != "%" or dm[0][1] != dm[1][1]:
         r.violation(LIB, F, "name parts %s, %s" % (sec_v, ms_v), "the second and millisecond parts of the file name are not "
                     "X/1000 and X%%1000 of one file-start millisecond value", line=sn[0].line)
         return r
